@@ -266,8 +266,17 @@ def run(ctx):
             except Exception:
                 facts = []
             lazy = (f"self.{tgt} is None", True) in facts and isinstance(n, ast.Attribute)
+            if not lazy and isinstance(n, ast.Attribute):
+                # a private cache: nothing but this getter ever reads the attribute, every other writer only resets it
+                lazy = _private_cache(prog, f, tgt)
             ctx.ob("R-PURE", "C05.5", f, "a property getter only writes an attribute as a lazy cache fill (under `self.<attr> is None`): reading a result never changes the state it is computed from", lazy, f"`{src(st)[:90]}` writes self.{tgt} under {facts}", node=n)
     ctx.ob("R-PURE", "C05.5", "nessai", "purity rule ran over every property getter of the package", True, f"{n_prop} property getters")
+    # a value handed out by a property is modified in place only if the getter returns a fresh object (R-ALIAS, with C02.7)
+    from ..rules import alias as _alias
+    _al = _alias.scan(prog)
+    ctx.require(len(_al) >= 1, "no in-place consumer of a property value found (effective_n_posterior_samples expected)")
+    for _f, _mod, _attr, _c, _ok, _why in _al:
+        ctx.ob("R-ALIAS", "C05.5", _f, f"the value of property `{_attr}` is modified in place only because every getter of that name returns a fresh object", _ok, _why, node=_mod)
     stc = prog.cls("nessai.evidence:_NSIntegralState")
     writers = {"logZ": {"__init__", "increment", "finalise"}, "logw": {"__init__", "increment"}, "logLs": {"__init__", "increment"}, "log_vols": {"__init__", "increment"}, "info": {"__init__", "increment"}, "nlive": {"__init__", "increment"}}
     for attr_, who in writers.items():
@@ -279,6 +288,21 @@ def run(ctx):
 
 
 _ALIASING_CALLS = {"asarray", "asanyarray", "ascontiguousarray", "atleast_1d", "atleast_2d", "squeeze", "ravel", "reshape", "view", "transpose", "expand_dims", "broadcast_to", "array"}
+
+
+def _private_cache(prog, getter, attr):
+    for g in prog.all_functions:
+        for n in walk_no_nested(g.node):
+            if isinstance(n, ast.Attribute) and n.attr == attr:
+                if isinstance(n.ctx, ast.Load) and g is not getter:
+                    return False
+                if isinstance(n.ctx, ast.Store) and g is not getter:
+                    st = next((s for s in walk_no_nested(g.node) if isinstance(s, ast.Assign) and any(t is n for t in s.targets)), None)
+                    if st is None or not (isinstance(st.value, ast.Constant) and st.value.value is None):
+                        return False
+            if isinstance(n, ast.Constant) and n.value == attr and g is not getter:
+                return False  # getattr / setattr by name somewhere else
+    return True
 
 
 def may_alias(fnode, name):
